@@ -50,6 +50,16 @@ for f in k:
 w('')
 w('### 11.11 Seeded changes and what catches them (generated from seeded/*/meta.json)')
 w('')
+_ms = [json.load(open(p)) for p in sorted(glob.glob(V + '/seeded/*/meta.json'))]
+_d = sum(1 for m in _ms if m['caught_by_deductive_obligation'])
+_b = sum(1 for m in _ms if not m['caught_by_deductive_obligation'] and m['caught_by_bounded_stand_in'])
+_x = sum(1 for m in _ms if not m['caught_by_deductive_obligation'] and not m['caught_by_bounded_stand_in'])
+w(f'{len(_ms)} seeded changes (five waves of 20, each written by a sub-agent that saw only the text of one property and its own')
+w(f'worktree; every one passes the repository\'s test suite): {_d} are reported through a named deductive obligation, {_b} only')
+w(f'by a bounded stand-in, {_x} by nothing.  Where the deductive part is silent it is for one of three stated reasons: the changed')
+w('code uses a construct that puts the function out of reach (undecided, never a violation), the loaded contract carries an')
+w('assumption under which the change is harmless (e.g. "every shadow copy exists"), or the function is not under contract.')
+w('')
 w('| seed | change | caught by deductive obligation | caught by bounded stand-in |')
 w('|---|---|---|---|')
 for p in sorted(glob.glob(V + '/seeded/*/meta.json')):
